@@ -296,6 +296,10 @@ def _r18g(cx):
     from sa.finite import K as _K, C as _C
     cx.rule("R18g", "a cell is blank exactly when it holds None, '' or only white space (0, 0.0, False, dates are data)")
     f = cx.func(REL, "XlsTableReader._cell_is_empty", "R18g")
+    from sa.inline import inlined as _inl
+    f, _used = _inl(cx.repo.modules[REL], f, nested=True, tests=True)
+    if _used:
+        cx.note(f"R18g: the blank-cell predicate is analysed with {_used} expanded in place")
     ps = [p for p in params(f) if p not in ("self", "cls")]
     cx.need(len(ps) == 1, "R18g", f, "one cell parameter")
     cell = ps[0]
